@@ -268,9 +268,11 @@ def shard_wrapper(ctx, arg):
             check_wrapper(ctx, {"lengths": lengths, "available": available}, True)
 
 
+HYP = {"table": (lambda ctx: table_case(), check_table)}
+
 def run(ctx):
     quick = ctx.tier == "quick"
-    ctx.hyp(table_case(), lambda c: check_table(ctx, c), 900 if quick else 50000, salt=1)
+    ctx.hyp_sharded("table", 4000 if quick else 80000, salt=1)
     jobs = [(n, f) for n in ((2, 3) if quick else (2, 3, 4)) for f in [1, 3, 8, 15, 30, 60]]
     ctx.parallel("shard_wrapper", jobs)
     ctx.exhaustive("wrapper", True, "2-3 (thorough 4) columns x natural lengths {1,3,8,15,30,60}^n x available widths n..60")
